@@ -4,8 +4,8 @@ use core::{
 };
 
 use dashu_base::{
-    Approximation::*, BitTest, ConversionError, DivRemEuclid, EstimatedLog2, FloatEncoding, Sign,
-    Signed,
+    Approximation::*, BitTest, ConversionError, DivRem, DivRemEuclid, EstimatedLog2, FloatEncoding,
+    Sign, Signed,
 };
 use dashu_int::{IBig, UBig, Word};
 
@@ -17,7 +17,7 @@ use crate::{
         mode::{HalfAway, HalfEven, Zero},
         Round, Rounded, Rounding,
     },
-    utils::{ilog_exact, shl_digits, shl_digits_in_place, shr_digits},
+    utils::{digit_len, ilog_exact, shl_digits, shl_digits_in_place, shr_digits, split_digits},
 };
 
 impl<R: Round> Context<R> {
@@ -534,7 +534,23 @@ impl<R: Round> Context<R> {
             } else {
                 let num = Repr::new(repr.significand, 0);
                 let den = Repr::new(Repr::<B>::BASE.pow(-repr.exponent as usize).into(), 0);
-                self.repr_div(num, den)
+                if num.digits() <= self.precision + den.digits() {
+                    self.repr_div(num, den)
+                } else {
+                    // repr_div doesn't deal with a dividend this long (the quotient has more digits
+                    // than the precision): divide exactly and round once
+                    let (q, r) = num.significand.div_rem(&den.significand);
+                    let shift = digit_len::<NewB>(&q) - self.precision;
+                    let exponent = num.exponent - den.exponent + shift as isize;
+                    let (hi, lo) = split_digits::<NewB>(q, shift);
+                    let rem = lo * &den.significand + r;
+                    if rem.is_zero() {
+                        return Exact(Repr::new(hi, exponent));
+                    }
+                    let scale = shl_digits::<NewB>(&den.significand, shift);
+                    let adjust = R::round_ratio(&hi, rem, &scale);
+                    Inexact(Repr::new(hi + adjust, exponent), adjust)
+                }
             }
         } else {
             // if the exponent is large, then we first estimate the result exponent as floor(exponent * log(B) / log(NewB)),
